@@ -154,6 +154,11 @@ def run(ctx):
     c18.incomplete_flag_clause(ctx, res, cfl, 'C05', 'C05.f')
 
     rm.interception_flag_clause(ctx, res, 'C05', 'C05.g')
+    # ---- C05.h the ordinal counter is fresh whenever the scope is left (also after a discard): otherwise the next recording's
+    # outputs are stored from #2 on and a complete, unflagged recording cannot be replayed (missing key #1)
+    from . import c09
+    chh = res.clause('C05.h', 'R-TYPESTATE', 'the output ordinals restart with every recording scope (fresh counter at every exit, also after a discard)', floor=2)
+    c09.check_idle(res, chh, dom, roles.start, cl.qualname, [roles.counter], tl=False, prop='C05')
     # ------------------------------------------------------------------ C05.b/c  capture-or-dead in recording mode
     cc = res.clause('C05.c', 'R-MUSTPASS', 'in recording mode an executed interception is captured or the recording is dead', floor=4)
     base_atoms = recmodel_base_atoms(ctx)
